@@ -20,8 +20,9 @@ for c in m["checks"]:
         print(p.stdout[-1500:], p.stderr[-1500:])
     ev = json.load(open(os.path.join(V, "evidence", pid + ".json")))
     cov = ev["coverage"]
-    if cov["obligations"] != cov["discharged"] or cov["obligations"] < 1:
-        print("  EVIDENCE PROBLEM: obligations %s discharged %s" % (cov["obligations"], cov["discharged"])); bad += 1
+    ob, di = cov.get("obligations", cov.get("obligations_stated", 0)), cov.get("discharged", cov.get("obligations_discharged", 0))
+    if ob != di or ob < 1:
+        print("  EVIDENCE PROBLEM: obligations %s discharged %s" % (ob, di)); bad += 1
 v = subprocess.run(["python3-vt", "-c", """
 import json,jsonschema,glob
 m=json.load(open('%s/MANIFEST.json')); jsonschema.validate(m, json.load(open('/root/.vp/MANIFEST.schema.json')))
